@@ -1,6 +1,33 @@
-(* C08 -- Grammar: every generated string is derivable; every terminal is used.
-   (theorems are added as they are closed; the model and the specification are in Grammar.v) *)
-From Fences Require Import Grammar.
+(* C08 -- Grammar: every generated string is derivable; every terminal is used. *)
+From Fences Require Import Grammar GraphSpec GraphLinks GraphExec GraphRun GraphOpt GraphResolve GraphResolveSem RegexLang GrammarLang.
+
+(* For every grammar whose character ranges and repetition bounds are in order -- any number of rules, left-, right-
+   and self-recursive ones, references to rules defined later, nesting to any depth -- and every complete execution of
+   the graph that the model of grammar/convert.py returns (one decision per rule, References resolved by resolve(),
+   optimize(), input and output nodes), for every path, generated or not: the string produced is derivable from the
+   start symbol (inductive specification [derives]: a finite derivation tree). *)
+Theorem C08_language : forall fuel G start st root f p tr,
+  (forall name r, In (name, r) G -> wfr r) ->
+  parse_grammar fuel G start = Ok (st, root) ->
+  exec f (b_graph st) root p = Ok (tr, []) ->
+  derives G (GNT start) (output_of st tr).
+Proof.
+  intros fuel G start st root f p tr WG H X.
+  apply exec_Run in X. apply Run_Run0 in X. destruct X as (c & _ & R).
+  exact (parse_grammar_lang fuel G start st root WG H c tr R).
+Qed.
+Print Assumptions C08_language.
+
+(* what resolve() does, semantically: every visited node keeps its kind and its successors are the dereferenced
+   successors; the visited set contains the root and is closed under successors (used above, and for C14) *)
+Theorem C08_resolve_sem : forall fuel g root extra g' r,
+  resolve fuel g root extra = Ok (g', r) ->
+  outs_ok g -> ins_ok_nr g -> outs_dec g ->
+  exists t vis, tbl_wf g t /\ DR g t root r /\ same_nodes g g' /\ In r vis /\
+    (forall x, In x vis -> Forall2 (DR g t) (outs_of g x) (outs_of g' x)) /\
+    (forall x, In x vis -> is_dec g' x = true -> forall c, In c (outs_of g' x) -> In c vis).
+Proof. exact resolve_sem. Qed.
+Print Assumptions C08_resolve_sem.
 
 (* repetition counts of the unrolling lie inside the bounds: the lower unrolling has [start] copies,
    the upper one [stop] (or start + 3 for an open range) *)
@@ -14,3 +41,15 @@ Proof.
   - intros s' E. discriminate.
 Qed.
 Print Assumptions C08_rep_bounds.
+
+(* non-vacuity: s = "(" s ")" | "x"{1,2}, a right- and left-recursive rule with a repetition *)
+Definition c08_G : grammar :=
+  [([115], GAlt [GConcat [GTerm [40]; GNT [115]; GTerm [41]]; GRep (GTerm [120]) 1 (Some 2)])].
+Example C08_nonvacuous : exists st root p tr,
+  parse_grammar 60 c08_G [115] = Ok (st, root) /\ exec 60 (b_graph st) root p = Ok (tr, []) /\
+  output_of st tr = [40; 120; 120; 41].
+Proof.
+  destruct (parse_grammar 60 c08_G [115]) as [[st root]| | |] eqn:E; try (vm_compute in E; discriminate).
+  exists st, root. vm_compute in E. inversion E; subst. clear E.
+  eexists [0; 1; 1]. eexists. split; [reflexivity|]. split; vm_compute; reflexivity.
+Qed.
